@@ -260,7 +260,14 @@ def _replay_child(case):
     rec = Rec('C18')
     with warnings.catch_warnings():
         warnings.simplefilter('ignore')
-        case_input(rec, case)
+        if case.get('sequence') and not case.get('kind'):
+            # a violation found inside a sequence: replay the whole sequence it belongs to
+            case_sequence(rec, {'kind': 'sequence', 'sizes': case['sequence'], 'chunks': case['chunks'], 'cross': case.get('split') is not None,
+                                'blocks': case['molecules'] != [0] * case['n']})
+        elif case.get('kind') == 'sequence':
+            case_sequence(rec, case)
+        else:
+            case_input(rec, case)
     return rec.to_dict()
 
 
@@ -289,6 +296,24 @@ def replay(rec, case):
         ex.shutdown(wait=False, cancel_futures=True)
 
 
+def case_sequence(rec, c, mod=None):
+    """One Debyer object per chunk count serves a whole sequence of inputs of different sizes (all orders of the sizes are
+    separate cases): every call answers for its own input, whatever was evaluated before on the same object."""
+    if mod is None:
+        mod, err = ensure_built()
+        if mod is None:
+            rec.fail(c, err, tags('build'))
+            return
+    reuse = {}
+    for n in c['sizes']:
+        sub = {'n': n, 'molecules': [i // 5 for i in range(n)] if c.get('blocks') else [0] * n, 'frames': 1, 'box': 'small',
+               'split': (n // 2 if c.get('cross') else None), 'chunks': c['chunks'], 'reuse': True, 'sequence': c['sizes']}
+        before = rec.nviol
+        case_input(rec, sub, mod, reuse)
+        if rec.nviol != before:
+            return
+
+
 def _worker(chunk):
     rec = Rec('C18')
     with warnings.catch_warnings():
@@ -298,7 +323,10 @@ def _worker(chunk):
             raise HarnessError(err)
         reuse = {}
         for c in chunk:
-            case_input(rec, c, mod, reuse)
+            if c.get('kind') == 'sequence':
+                case_sequence(rec, c, mod)
+            else:
+                case_input(rec, c, mod, reuse)
     return rec.to_dict()
 
 
@@ -344,6 +372,11 @@ def run(rec, tier, seed):
     for n in (2, 5, 3, 7):
         for layout in ('fortran', 'float32', 'strided'):
             cases.append({'n': n, 'molecules': [i % 2 for i in range(n)], 'frames': 2, 'box': 'small', 'split': None, 'chunks': [1, 3], 'layout': layout, 'reuse': True})
+    # one object, a sequence of inputs of different sizes: all orders of each size set, several chunk counts
+    for sizes in ((13, 15, 16), (30, 32, 29), (5, 2, 7), (4, 9)):
+        for perm in itertools.permutations(sizes):
+            for cross, blocks in ((False, False), (True, False), (False, True)):
+                cases.append({'kind': 'sequence', 'sizes': list(perm), 'chunks': [4, 3, 2], 'cross': cross, 'blocks': blocks})
     # contention: many pairs, few bins, many chunks and threads, more repetitions (a shared accumulator loses updates here)
     for n in ((60,) if quick else (60, 120)):
         cases.append({'n': n, 'molecules': [0] * n, 'frames': 2, 'box': 'small', 'split': None, 'chunks': [16, 7], 'reps': 6, 'length': 4, 'dk': 0.9})
